@@ -113,7 +113,7 @@ def _kc_cfg(draw, n, entry, corner):
             # warm: strictly below the starting radius, so at least one more center is needed
             cfg["radius_frac"] = draw(st.floats(0.02, 0.95 if warm else 1.1))
     if entry == "kcenters":
-        cfg["tri"] = draw(st.booleans())
+        cfg["tri"] = draw(st.booleans())          # forced off below for a callable that is not a metric
     if entry in ("hybrid", "KHybrid.fit"):
         cfg["n_iters"] = draw(st.integers(0, 4))
         if entry == "hybrid":
@@ -263,7 +263,8 @@ def execute(case):
                 kw["init_centers"] = init
             if entry == "kcenters":
                 cl.append("tri=%s" % cfg["tri"])
-                run.r = kc_mod.kcenters(X, M, use_triangle_inequality=cfg["tri"], **kw)
+                tri = cfg["tri"] and case["metric"] in rc.TRUE_METRICS     # the shortcut presupposes a metric
+                run.r = kc_mod.kcenters(X, M, use_triangle_inequality=tri, **kw)
             else:
                 rs = case["seed"] if cfg["rs_kind"] == "int" else np.random.RandomState(case["seed"])
                 cl += ["sweeps=%d" % cfg["n_iters"], "rs=" + cfg["rs_kind"]]
@@ -501,7 +502,7 @@ def exhaustive_small(tier, shard, nshards):
                         idx += 1
                         if idx % nshards != shard:
                             continue
-                        metric = rc.METRICS[idx % 3]
+                        metric = rc.TRUE_METRICS[idx % 3]
                         yield {"data": {"sites": [[p] for p in pts], "step": 1, "jitter": None, "dtype": "int64",
                                         "layout": "C", "kind": "uniform"},
                                "metric": metric, "entry": "kmedoids", "seed": 0,
